@@ -108,7 +108,7 @@ func clashPair(r *wvlib.Rng, shape string) (*wvlib.Build, *wvlib.Build) {
 	return old, nw
 }
 
-// the first three are the recorded classes of finding F8; the other five failed too until F25, F26 and F27 were repaired
+// all eight failed until F8 (1)-(4), F25, F26 and F27 were repaired; they stay as regression shapes
 var clashShapes = []string{"dir->file-new", "dir->file-renamed", "file->dir-containing-own-rename", "dir->symlink-child-renamed-out",
 	"dir->symlink-into-kept-dir", "symlink->file-copy-of-its-target", "emptydir->file-copy", "file->symlink-file-renamed"}
 var benignKindShapes = []string{"symlink->file", "file->symlink", "symlink->dir", "emptydir->file", "file->dir-not-source", "dir->symlink-plain", "temp-name-lookalike", "temp-name-lookalike-2"}
@@ -148,14 +148,10 @@ func c02One(env *Env, m *wvlib.Model, c *C02Case) {
 	if c.Clash != "" {
 		suffix = ":" + c.Clash
 	} else if c.Opts.KindClash {
-		// theorem C02.commit_correct_kinds_partial: the commit is correct whenever BenignKindChanges holds; outside
-		// it (the recorded finding F8) a failure is classified by the clause that is violated
-		if clause := c02NotBenign(res.Old, res.New, patch); clause != "" {
-			suffix = ":not-benign:" + clause
-			env.R.Count("kind-changes:not-benign:"+clause, 1)
-		} else {
-			env.R.Count("kind-changes:benign", 1)
-		}
+		// theorem C02.commit_correct: since the repair of the last shape of finding F8 the commit is correct for EVERY
+		// pair of well-formed builds, whatever kinds change (no predicate left to evaluate): no suffix, so any failure
+		// is an unlisted violation
+		env.R.Count("kind-changes:random-pairs", 1)
 	}
 	reps := c.Repeats
 	if reps < 1 {
@@ -290,35 +286,4 @@ func runC02(env *Env) {
 		}
 	})
 	stopModels(env, models)
-}
-
-// c02NotBenign evaluates the predicate BenignKindChanges of Props/C02Kinds.lean on a pair of containers and the
-// transpositions the patch leads to; returns "" when it holds, else the name of a violated clause.  (dirOrder holds
-// for every container tlc.Walk produces: parents are listed first.)
-func c02NotBenign(oldC, newC *tlc.Container, patch []byte) string {
-	newDirs := map[string]bool{}
-	for _, d := range newC.Dirs {
-		newDirs[d.Path] = true
-	}
-	// sources: the old path of a transposed file is not a directory of the new build.  A series is a transposition
-	// when its first op is a block range from block 0 of an equally sized old file spanning all of its blocks
-	// (isFullFileOp)
-	_, _, msgs, err := decodePatch(patch)
-	if err != nil {
-		return ""
-	}
-	for k, m := range msgs {
-		if m.Kind != "H" || k+1 >= len(msgs) {
-			continue
-		}
-		op := msgs[k+1]
-		if op.Kind != "O" || op.A != 0 || op.C != 0 || m.B < 0 || int(m.B) >= len(newC.Files) || op.B < 0 || int(op.B) >= len(oldC.Files) {
-			continue
-		}
-		of, nf := oldC.Files[op.B], newC.Files[m.B]
-		if of.Size == nf.Size && op.D == (nf.Size+int64(wvlib.BS)-1)/int64(wvlib.BS) && newDirs[of.Path] {
-			return "sources"
-		}
-	}
-	return ""
 }
